@@ -10,7 +10,7 @@ THIR of `find`, the registry is this table.
 import interp as I
 from facts import short
 
-MODS = {0: {}, 1: {"is_const": True}, 2: {"volatile": True}}
+MODS = {0: {}, 1: {"is_const": True}, 2: {"volatile": True}, 3: {"is_const": True, "row_major": True}, 4: {"is_const": True, "column_major": True}}    # (3, 4: matrices only)
 MOD_FIELDS = ("is_const", "volatile", "row_major", "column_major", "unorm", "snorm")
 
 
